@@ -13,6 +13,9 @@
      DROP                          the connection drops: the bytes in flight in both directions are LOST; both sides
                                    reconnect = acceptor instance and initiator re-created on their persister files
                                    (Sess.Wire RESTART), the initiator's new Logon goes in flight
+     CFG <a> <b>                   the operators force the numbers: in-flight bytes lost, both sides re-created on their
+                                   files with start arguments (Session::start send/receive numbers) initiator ss=a rs=b,
+                                   acceptor ss=b rs=a; every LATER reconnect recovers the numbers from the files only
      RI / RA                       the initiator / acceptor PROCESS restarts: the bytes in flight towards the surviving
                                    side still arrive and are processed (its answers go nowhere), the bytes in flight
                                    towards the restarted side are lost; then both sides are re-created as for DROP
@@ -33,6 +36,7 @@ Inductive sop :=
 | SDrop
 | SRestartI
 | SRestartA
+| SCfg (a b : N)
 | SBad.
 
 Record tp := mkTP {
@@ -96,11 +100,21 @@ Fixpoint quiesce (fuel : nat) (t : tp) : res :=
     end
   end.
 
+(* harness teardown, then START with the given parameters on the same files (Sess.Wire's RESTART with new start
+   arguments) *)
+Definition restart_with (p : startp) (w : world) : world * list event :=
+  let w1 := teardown w in
+  do_start sc (mkWorld (w_sess w1) (w_now w1) p (w_disk w1) (w_snap w1)).
+
 (* both sides re-created on their files; nothing is in flight but the initiator's new Logon *)
-Definition reconnect (t : tp) : res :=
-  let '(wa, ea) := side_op (tp_a t) ORestart in
-  let '(wi, ei) := side_op (tp_i t) ORestart in
+Definition reconnect_with (pi pa : startp) (t : tp) : res :=
+  let '(wa, ea) := restart_with pa (tp_a t) in
+  let '(wi, ei) := restart_with pi (tp_i t) in
   (mkTP wi wa (outs ei) (outs ea), ei, ea).
+Definition reconnect : tp -> res := reconnect_with sp_i sp_a.
+
+Definition with_numbers (p : startp) (ss rs : N) : startp :=
+  mkStart (sp_role p) (sp_pk p) (sp_snd p) (sp_tgt p) (sp_par p) (sp_hb p) ss rs.
 
 Definition lose_flight (t : tp) : res := (mkTP (tp_i t) (tp_a t) [] [], [], []).
 Definition lose_ia (t : tp) : res := (mkTP (tp_i t) (tp_a t) [] (tp_ai t), [], []).
@@ -116,6 +130,7 @@ Definition run_sop (t : tp) (o : sop) : res :=
   | SDrop => seq2 lose_flight reconnect t
   | SRestartI => seq2 (seq2 lose_ai deliver_a) (seq2 lose_flight reconnect) t
   | SRestartA => seq2 (seq2 lose_ia deliver_i) (seq2 lose_flight reconnect) t
+  | SCfg a b => seq2 lose_flight (reconnect_with (with_numbers sp_i a b) (with_numbers sp_a b a)) t
   | SBad => (t, [ENote [66;65;68;79;80]], [ENote [66;65;68;79;80]])
   end.
 
@@ -159,6 +174,10 @@ Definition parse_sop (t : bytes) : sop :=
   | [name; a] =>
     if beq name [83;73] then SSendI t (parse_spec a)         (* SI *)
     else if beq name [83;65] then SSendA t (parse_spec a)    (* SA *)
+    else SBad
+  | [name; a; b] =>
+    if beq name [67;70;71] then                               (* CFG *)
+      match parse_num a, parse_num b with Some x, Some y => SCfg x y | _, _ => SBad end
     else SBad
   | _ => SBad
   end.
